@@ -424,7 +424,7 @@ func rtEval(idx int64, param string) *explore.Result {
 	if err != nil || !back.Equal(t) || back.UnixNano() != v {
 		return fail(fmt.Sprintf("roundtrip:date:v=%d", v), "DecodeDateTime(NewDateTimeField(%v).Value()) = %v, %v", t.UTC(), back, err)
 	}
-	if idx%400 == 0 && res.Failure == "" {
+	if idx%400 == 0 {
 		e0, _ := numeric.NewPrefixCodedInt64(v, 0)
 		e8, _ := numeric.NewPrefixCodedInt64(v, 8)
 		res.Sample = map[string]interface{}{"roundtrip_value": v, "shift0": fmt.Sprintf("%x", []byte(e0)), "shift8": fmt.Sprintf("%x", []byte(e8)), "shift8_decodes_to": truncated(v, 8)}
@@ -1569,6 +1569,9 @@ func main() {
 			continue
 		}
 		st := explore.Enumerate(explore.EnumConfig{Name: name, Param: param, Budget: budget, MaxViol: 20})
+		if n := map[string]int{"c10-range": 1}[name] + 1; len(st.Samples) > n { // one written-out case per enumeration (two range queries)
+			st.Samples = st.Samples[:n]
+		}
 		c.AddEnum(st)
 		if os.Getenv("C10_KEYS") != "" { // development aid: all distinct violation keys
 			seen := map[string]bool{}
